@@ -390,7 +390,9 @@ func CheckSession(c SessCase) (vs hx.Vs, nontrivial bool, classes []string) {
 					continue
 				}
 				if len(ci.hidden) > 0 {
-					if at, found := leak(out, ci.hidden, append(append([]byte{}, ci.want...), ci.env...), 4); found {
+					// not with an envelope-shaped piece inside the clear window: the reader may open its own envelope
+					// there, and what that reveals can share 4 bytes with the hidden part (see the component layer)
+					if at, found := leak(out, ci.hidden, append(append([]byte{}, ci.want...), ci.env...), 4); found && !ci.inWindow {
 						vs.Add("hidden-plaintext-leaked:"+layer, "%s received 4 bytes of the hidden part of %s (offset %d of %d): %.60q", reader, col.Name, at, len(ci.hidden), out)
 					}
 					// the whole byte stream the reader received, in the usual encodings
